@@ -77,12 +77,79 @@ pub fn p_panic(desc: &str) -> String {
     format!("(panic Chitchat.Panic.{})", classify_panic(desc))
 }
 
+/// Reference versioned map for a node's own namespace (C06), written from the property's
+/// statement, not from the code: key -> (value, version, status 0 set/1 deleted/2 ttl, time).
+#[derive(Default, Clone, Debug, PartialEq)]
+pub struct RefMap {
+    pub kvs: BTreeMap<String, (String, u64, u8, u64)>,
+    pub max: u64,
+    pub gc: u64,
+}
+
+impl RefMap {
+    fn write(&mut self, k: &str, v: &str, st: u8, now: u64) {
+        self.max += 1;
+        self.kvs.insert(k.to_string(), (v.to_string(), self.max, st, if st == 0 { 0 } else { now }));
+    }
+    pub fn set(&mut self, k: &str, v: &str) {
+        if let Some(e) = self.kvs.get(k) {
+            if e.0 == v && e.2 == 0 {
+                return;
+            }
+        }
+        self.write(k, v, 0, 0);
+    }
+    pub fn set_ttl(&mut self, k: &str, v: &str, now: u64) {
+        if let Some(e) = self.kvs.get(k) {
+            if e.0 == v && e.2 == 2 {
+                return;
+            }
+        }
+        self.write(k, v, 2, now);
+    }
+    pub fn delete(&mut self, k: &str, now: u64) {
+        if self.kvs.contains_key(k) {
+            self.write(k, "", 1, now);
+        }
+    }
+    pub fn delete_after_ttl(&mut self, k: &str, now: u64) {
+        if let Some(e) = self.kvs.get(k).cloned() {
+            if e.2 != 1 {
+                self.write(k, &e.0, 2, now);
+            }
+        }
+    }
+    pub fn gc(&mut self, now: u64, grace: u64) {
+        let mut gc = self.gc;
+        self.kvs.retain(|_, e| {
+            if e.2 != 0 && now >= e.3 + grace {
+                gc = gc.max(e.1);
+                false
+            } else {
+                true
+            }
+        });
+        self.gc = gc;
+    }
+    pub fn of_copy(c: &PCopy) -> RefMap {
+        RefMap {
+            kvs: c.kvs.iter().map(|(k, v, ver, st, t)| (k.clone(), (v.clone(), *ver, *st, if *st == 0 { 0 } else { *t }))).collect(),
+            max: c.max_version,
+            gc: c.last_gc,
+        }
+    }
+}
+
 pub struct NodeCtx {
+    pub refmap: RefMap,
+    pub grace: u64,
     pub cc: Chitchat,
     pub id: ChitchatId,
     pub events: Arc<Mutex<Vec<(ChitchatId, String, String)>>>,
     pub callbacks: Arc<AtomicUsize>,
     pub publishes: usize,
+    /// (theta num, theta den, initial interval in ticks) for the tie-band test
+    pub fd_params: Option<(u64, u64, u64)>,
     pub watch_rx: watch::Receiver<BTreeMap<ChitchatId, NodeState>>,
     _seeds_tx: watch::Sender<HashSet<std::net::SocketAddr>>,
 }
@@ -102,6 +169,7 @@ pub struct Exec {
     pub poisoned: bool,
     pub case_id: String,
     pub hits: Vec<String>,
+    pub tie_skips: u64,
 }
 
 pub fn to_pdelta(delta: &verif::Delta) -> PDelta {
@@ -169,7 +237,7 @@ impl Exec {
             let _g = rt.enter();
             Instant::now()
         };
-        Exec { rt, start, nodes: BTreeMap::new(), soup: Vec::new(), poisoned: false, case_id: String::new(), hits: Vec::new() }
+        Exec { rt, start, nodes: BTreeMap::new(), soup: Vec::new(), poisoned: false, case_id: String::new(), hits: Vec::new(), tie_skips: 0 }
     }
 
     pub fn now_ticks(&self) -> u64 {
@@ -262,6 +330,32 @@ impl Exec {
                 }
             };
         }
+        if head == "live" && !self.poisoned {
+            // keep the f64 phi computation away from exact ties: nudge the clock by one tick
+            let mut out = Vec::new();
+            if let Some(slot) = cmd.list().and_then(|l| l.get(1)).and_then(|s| s.nat()) {
+                let mut guard = 0;
+                while self.in_tie_band(slot) && guard < 4 {
+                    self.rt.block_on(tokio::time::advance(dur(1)));
+                    out.push(("(advance 1)".to_string(), plist("now", [self.now_ticks().to_string()])));
+                    self.tie_skips += 1;
+                    guard += 1;
+                }
+            }
+            out.push(self.step1(cmd, &head));
+            return out;
+        }
+        if head == "handshake" && !self.poisoned {
+            let args: Vec<Sx> = cmd.list().unwrap()[1..].to_vec();
+            return match catch_unwind(AssertUnwindSafe(|| self.handshake(&args))) {
+                Ok(Some(v)) => v,
+                Ok(None) => vec![bad("handshake")],
+                Err(_) => {
+                    self.poisoned = true;
+                    vec![("(nop)".to_string(), format!("(harness-panic {})", take_panic()))]
+                }
+            };
+        }
         if head == "datagram" || head == "wirecase" || head == "mtusweep" {
             let args: Vec<Sx> = cmd.list().unwrap()[1..].to_vec();
             if self.poisoned {
@@ -286,6 +380,36 @@ impl Exec {
             };
         }
         vec![self.step1(cmd, &head)]
+    }
+
+    /// `(handshake a b)`: SYN, SYN-ACK, ACK between a and b with nothing lost (not through the soup).
+    fn handshake(&mut self, a: &[Sx]) -> Option<Vec<(String, String)>> {
+        let from = a.first()?.nat()?;
+        let to = a.get(1)?.nat()?;
+        if !self.nodes.contains_key(&from) || !self.nodes.contains_key(&to) {
+            return Some(vec![("(nop)".into(), "(nop)".into())]);
+        }
+        let mut out = Vec::new();
+        let syn = {
+            let _g = self.rt.enter();
+            to_pmsg(&verif::cc_create_syn_message(&self.nodes.get(&from)?.cc))
+        };
+        out.push((plist("syn", [from.to_string()]), p_msg(&syn)));
+        let (l, o, synack) = self.process_msg(to, &syn)?;
+        out.push((l, o));
+        let Some(synack) = synack else { return Some(out) };
+        if self.poisoned {
+            return Some(out);
+        }
+        let (l, o, ack) = self.process_msg(from, &synack)?;
+        out.push((l, o));
+        let Some(ack) = ack else { return Some(out) };
+        if self.poisoned {
+            return Some(out);
+        }
+        let (l, o, _) = self.process_msg(to, &ack)?;
+        out.push((l, o));
+        Some(out)
     }
 
     /// `(mtusweep slot digest sched)`: the delta for budgets around every block / size boundary.
@@ -385,6 +509,77 @@ impl Exec {
         Some(out)
     }
 
+    /// Re-bases the reference map of a node on its actual own copy (after `new` / `setcopy`).
+    fn resync_ref(&mut self, slot: u64) {
+        let id = match self.nodes.get(&slot) {
+            Some(c) => c.id.clone(),
+            None => return,
+        };
+        if let Some(c) = self.snapshot_copy(slot, &id) {
+            if let Some(ctx) = self.nodes.get_mut(&slot) {
+                ctx.refmap = RefMap::of_copy(&c);
+            }
+        }
+    }
+
+    /// Compares a node's own copy with its reference map; `what` names the step just taken.
+    fn check_own_copy(&mut self, slot: u64, props: &[&str], what: &str) {
+        let id = match self.nodes.get(&slot) {
+            Some(c) => c.id.clone(),
+            None => return,
+        };
+        let Some(actual) = self.snapshot_copy(slot, &id) else { return };
+        let expect = self.nodes.get(&slot).unwrap().refmap.clone();
+        let actual_ref = RefMap::of_copy(&actual);
+        if actual_ref != expect {
+            let mut detail = format!("after `{what}` the node's own key-values differ from the reference map: ");
+            if actual_ref.max != expect.max {
+                detail.push_str(&format!("max version {} (expected {}); ", actual_ref.max, expect.max));
+            }
+            if actual_ref.gc != expect.gc {
+                detail.push_str(&format!("gc watermark {} (expected {}); ", actual_ref.gc, expect.gc));
+            }
+            for (k, e) in &expect.kvs {
+                if actual_ref.kvs.get(k) != Some(e) {
+                    detail.push_str(&format!("key {:?}: {:?} (expected {:?}); ", k, actual_ref.kvs.get(k), e));
+                }
+            }
+            for k in actual_ref.kvs.keys() {
+                if !expect.kvs.contains_key(k) {
+                    detail.push_str(&format!("unexpected key {k:?}; "));
+                }
+            }
+            detail.truncate(600);
+            for p in props {
+                self.monitor_hit(p, "own-namespace", &detail);
+            }
+            // avoid cascades: continue from what the implementation holds
+            self.resync_ref(slot);
+        }
+    }
+
+    /// Is some member's exact phi within a relative 1e-9 of the threshold right now?
+    fn in_tie_band(&self, slot: u64) -> bool {
+        let Some(ctx) = self.nodes.get(&slot) else { return false };
+        let Some((num, den, prior)) = ctx.fd_params else { return false };
+        let now = self.now_ticks() as u128;
+        for (_id, (ivs, _sum, last)) in verif::cc_windows(&ctx.cc) {
+            let Some(last) = last else { continue };
+            if ivs.is_empty() {
+                continue;
+            }
+            let sum: u128 = ivs.iter().map(|x| (x * 512.0).round() as u128).sum();
+            let elapsed = now.saturating_sub(ticks_of(self.start, last) as u128);
+            let lhs = elapsed * (ivs.len() as u128 + 5) * den as u128;
+            let rhs = num as u128 * (sum + 5 * prior as u128);
+            let diff = if lhs > rhs { lhs - rhs } else { rhs - lhs };
+            if diff * 1_000_000_000 <= rhs {
+                return true;
+            }
+        }
+        false
+    }
+
     pub fn monitor_hit(&mut self, property: &str, signature: &str, detail: &str) {
         self.hits.push(format!(
             "{{\"property\": \"{}\", \"signature\": \"{}\", \"case\": \"{}\", \"detail\": {:?}}}",
@@ -421,7 +616,16 @@ impl Exec {
         }
     }
 
-    fn own_write(&mut self, slot: u64, line: String, f: impl FnOnce(&mut NodeState)) -> Option<(String, String)> {
+    fn own_write(
+        &mut self,
+        slot: u64,
+        line: String,
+        rf: impl FnOnce(&mut RefMap, u64),
+        f: impl FnOnce(&mut NodeState),
+    ) -> Option<(String, String)> {
+        let now = self.now_ticks();
+        rf(&mut self.nodes.get_mut(&slot)?.refmap, now);
+        let what = line.clone();
         let _g = self.rt.enter();
         let r = {
             let ctx = self.nodes.get_mut(&slot)?;
@@ -432,12 +636,17 @@ impl Exec {
         match r {
             Ok(()) => {
                 let evs = Self::take_events(self.nodes.get(&slot)?);
+                self.check_own_copy(slot, &["C06", "C04"], &what[..what.len().min(80)]);
                 let node = self.p_node(slot);
                 Some((line, plist("ok", [Self::p_events(&evs), node])))
             }
             Err(_) => {
                 self.poisoned = true;
-                Some((line, p_panic(&take_panic())))
+                let desc = take_panic();
+                let d = format!("a local write aborted: {}", &desc[..desc.len().min(160)]);
+                self.monitor_hit("C06", "write-abort", &d);
+                self.monitor_hit("C15", "write-abort", &d);
+                Some((line, p_panic(&desc)))
             }
         }
     }
@@ -520,8 +729,9 @@ impl Exec {
                 // initial key-values fired no listener (none was subscribed yet); the model reports
                 // them, so reconstruct them from the state for comparison.
                 let init_events: Vec<(ChitchatId, String, String)> = Vec::new();
-                let ctx = NodeCtx { cc, id: id.clone(), events, callbacks, publishes: 0, watch_rx, _seeds_tx: seeds_tx };
+                let ctx = NodeCtx { refmap: RefMap::default(), grace, cc, id: id.clone(), events, callbacks, publishes: 0, fd_params: Some((f[0].nat()?, f[1].nat()?, f[4].nat()?)), watch_rx, _seeds_tx: seeds_tx };
                 self.nodes.insert(slot, ctx);
+                self.resync_ref(slot);
                 let node = self.p_node(slot);
                 let _ = init_events;
                 Some((line, plist("ok", [node])))
@@ -529,28 +739,39 @@ impl Exec {
             "set" => {
                 let slot = a.first()?.nat()?;
                 let (k, v) = (a.get(1)?.string()?, a.get(2)?.string()?);
-                self.own_write(slot, line, move |ns| ns.set(k, v))
+                let (k2, v2) = (k.clone(), v.clone());
+                self.own_write(slot, line, move |r, _| r.set(&k2, &v2), move |ns| ns.set(k, v))
             }
             "setttl" => {
                 let slot = a.first()?.nat()?;
                 let (k, v) = (a.get(1)?.string()?, a.get(2)?.string()?);
-                self.own_write(slot, line, move |ns| ns.set_with_ttl(k, v))
+                let (k2, v2) = (k.clone(), v.clone());
+                self.own_write(slot, line, move |r, now| r.set_ttl(&k2, &v2, now), move |ns| ns.set_with_ttl(k, v))
             }
             "del" => {
                 let slot = a.first()?.nat()?;
                 let k = a.get(1)?.string()?;
-                self.own_write(slot, line, move |ns| ns.delete(&k))
+                let k2 = k.clone();
+                self.own_write(slot, line, move |r, now| r.delete(&k2, now), move |ns| ns.delete(&k))
             }
             "delttl" => {
                 let slot = a.first()?.nat()?;
                 let k = a.get(1)?.string()?;
-                self.own_write(slot, line, move |ns| ns.delete_after_ttl(&k))
+                let k2 = k.clone();
+                self.own_write(slot, line, move |r, now| r.delete_after_ttl(&k2, now), move |ns| ns.delete_after_ttl(&k))
             }
             "gc" => {
                 let slot = a.first()?.nat()?;
                 let _g = self.rt.enter();
                 verif::cc_gc_keys_marked_for_deletion(&mut self.nodes.get_mut(&slot)?.cc);
                 drop(_g);
+                let now = self.now_ticks();
+                {
+                    let ctx = self.nodes.get_mut(&slot)?;
+                    let grace = ctx.grace;
+                    ctx.refmap.gc(now, grace);
+                }
+                self.check_own_copy(slot, &["C06"], "gc pass");
                 let node = self.p_node(slot);
                 Some((line, plist("ok", [node])))
             }
@@ -597,6 +818,7 @@ impl Exec {
                     return Some((line, p_panic(&take_panic())));
                 }
                 let _ = Self::take_events(self.nodes.get(&slot)?);
+                self.resync_ref(slot);
                 let node = self.p_node(slot);
                 Some((line, plist("ok", [node])))
             }
@@ -666,6 +888,83 @@ impl Exec {
                 let node = self.p_node(slot);
                 Some((line, plist("ok", [plist("sched", sched.iter().map(p_id)), node])))
             }
+            "catchup" => {
+                // (catchup slot id (kv ...) max gc)
+                let slot = a.first()?.nat()?;
+                let id = r_id(a.get(1)?)?;
+                let mut kvs: Vec<(String, VersionedValue)> = Vec::new();
+                let _g = self.rt.enter();
+                let now = Instant::now();
+                for kv in a.get(2)?.list()? {
+                    let f = kv.tagged("kv")?;
+                    let status = match f[3].atom()? {
+                        "S" => DeletionStatus::Set,
+                        "D" => DeletionStatus::Deleted(now),
+                        _ => DeletionStatus::DeleteAfterTtl(now),
+                    };
+                    kvs.push((f[0].string()?, VersionedValue { value: f[1].string()?, version: f[2].nat()?, status }));
+                }
+                let max = a.get(3)?.nat()?;
+                let gc = a.get(4)?.nat()?;
+                let ctx = self.nodes.get_mut(&slot)?;
+                let r = catch_unwind(AssertUnwindSafe(|| {
+                    ctx.cc.reset_node_state_if_update(&id, kvs.into_iter(), max, gc)
+                }));
+                drop(_g);
+                match r {
+                    Ok(()) => {
+                        let evs = Self::take_events(self.nodes.get(&slot)?);
+                        let node = self.p_node(slot);
+                        Some((line, plist("ok", [Self::p_events(&evs), node])))
+                    }
+                    Err(_) => {
+                        self.poisoned = true;
+                        Some((line, p_panic(&take_panic())))
+                    }
+                }
+            }
+            "rmcopy" => {
+                // (rmcopy slot id remember): drop a copy; remember=1 goes through `remove_node`
+                // (heartbeat remembered), remember=0 also clears every trace of the member
+                let slot = a.first()?.nat()?;
+                let id = r_id(a.get(1)?)?;
+                let remember = a.get(2)?.nat()?;
+                if remember == 0 {
+                    // not expressible on the implementation without a hook that would not be
+                    // add-only; emulate: the generators only use it on fresh nodes
+                    if self.nodes.get(&slot)?.cc.node_state(&id).is_some()
+                        || verif::cc_last_heartbeat_if_deleted(&self.nodes.get(&slot)?.cc, &id).is_some()
+                    {
+                        // recreate the node from scratch: same config, no copies
+                        return None;
+                    }
+                    let node = self.p_node(slot);
+                    return Some((line, plist("ok", [node])));
+                }
+                verif::cc_remove_node(&mut self.nodes.get_mut(&slot)?.cc, &id);
+                let node = self.p_node(slot);
+                Some((line, plist("ok", [node])))
+            }
+            "converged" => {
+                let owners: Vec<(ChitchatId, u64)> = self
+                    .nodes
+                    .values()
+                    .map(|c| (c.id.clone(), c.cc.node_state(&c.id).map(|s| s.max_version()).unwrap_or(0)))
+                    .collect();
+                let _g = self.rt.enter();
+                // only *advertised* members count: alive, or dead but not yet scheduled for deletion
+                let ok = self.nodes.values().all(|c| {
+                    let sched: Vec<ChitchatId> = c.cc.scheduled_for_deletion_nodes().cloned().collect();
+                    owners.iter().all(|(id, max)| {
+                        sched.contains(id) || c.cc.node_state(id).map(|s| s.max_version() == *max).unwrap_or(false)
+                    })
+                });
+                drop(_g);
+                if !ok {
+                    self.monitor_hit("C01", "not-converged", "after loss-free handshakes between every pair some copy is still behind its owner");
+                }
+                Some((line, if ok { "(converged yes)".to_string() } else { "(converged no)".to_string() }))
+            }
             "hb" => {
                 let slot = a.first()?.nat()?;
                 let id = r_id(a.get(1)?)?;
@@ -694,19 +993,44 @@ impl Exec {
                 let id = nd.chitchat_id.clone();
                 let ns = verif::cc_node_state_mut(&mut ctx.cc, &id)?;
                 let check = verif::node_check_delta_status(ns, &nd);
+                let wellformed = nd.key_values.iter().all(|kv| kv.version <= nd.max_version);
+                let before = (ns.last_gc_version(), ns.max_version());
                 let r = catch_unwind(AssertUnwindSafe(|| verif::node_apply_delta(ns, nd)));
                 match r {
                     Ok(st) => {
                         let name = |s: u8| ["reject", "apply", "reset"][s as usize].to_string();
+                        let after = {
+                            let ns = ctx.cc.node_state(&id)?;
+                            (ns.last_gc_version(), ns.max_version())
+                        };
                         let ns_s = p_ns(ctx.cc.node_state(&id)?, start);
                         let evs = Self::take_events(ctx);
+                        let mut viol: Option<String> = None;
+                        if after < before {
+                            viol = Some(format!("frontier went backwards: {before:?} -> {after:?}"));
+                        } else if st == 0 && after != before {
+                            viol = Some(format!("a rejected delta changed the frontier: {before:?} -> {after:?}"));
+                        } else if st != 0 && after <= before {
+                            viol = Some(format!("an applied delta did not strictly raise the frontier: {before:?} -> {after:?}"));
+                        }
+                        if let Some(v) = viol {
+                            self.monitor_hit("C04", "frontier", &v);
+                            self.monitor_hit("C14", "frontier", &v);
+                        }
+                        let ctx = self.nodes.get(&slot)?;
                         Some((line, plist("ok", [name(st), name(check), Self::p_events(&evs), ns_s])))
                     }
                     Err(_) => {
                         // The copy may be half-updated; generators always `setcopy` before the
                         // next `applynd`, which rewrites it completely.
                         let _ = Self::take_events(self.nodes.get(&slot)?);
-                        Some((line, p_panic(&take_panic())))
+                        let desc = take_panic();
+                        if wellformed {
+                            let d = format!("apply_delta aborted ({}) on a delta with no key-value above its max version", classify_panic(&desc));
+                            self.monitor_hit("C04", "apply-abort", &d);
+                            self.monitor_hit("C09", "apply-abort", &d);
+                        }
+                        Some((line, p_panic(&desc)))
                     }
                 }
             }
@@ -835,10 +1159,51 @@ impl Exec {
         match r {
             Ok(delta) => {
                 let pd = to_pdelta(&delta);
+                if let Some(d) = self.delta_content_violation(slot, &pd, sched) {
+                    self.monitor_hit("C07", "delta-content", &d);
+                }
                 Some((l, plist("ok", [p_delta(&pd)]), Some(pd)))
             }
             Err(_) => Some((l, p_panic(&take_panic()), None)),
         }
+    }
+
+    /// C07 (content): each node delta carries exactly the sender's entries with versions in
+    /// (from, max], ascending; scheduled-for-deletion members never appear.
+    fn delta_content_violation(&self, slot: u64, pd: &PDelta, sched: &[ChitchatId]) -> Option<String> {
+        for nd in &pd.node_deltas {
+            if sched.contains(&nd.chitchat_id) {
+                return Some(format!("member {:?} is scheduled for deletion but is in the delta", nd.chitchat_id));
+            }
+            let ns = self.nodes.get(&slot)?.cc.node_state(&nd.chitchat_id)?;
+            let mut expect: Vec<(&str, &str, u64, u8)> = ns
+                .key_values_including_deleted()
+                .filter(|(_, vv)| vv.version > nd.from_version_excluded && vv.version <= nd.max_version)
+                .map(|(k, vv)| {
+                    let st = match vv.status {
+                        DeletionStatus::Set => 0u8,
+                        DeletionStatus::Deleted(_) => 1,
+                        DeletionStatus::DeleteAfterTtl(_) => 2,
+                    };
+                    (k, vv.value.as_str(), vv.version, st)
+                })
+                .collect();
+            expect.sort_by_key(|e| e.2);
+            let same = expect.len() == nd.key_values.len()
+                && expect.iter().zip(nd.key_values.iter()).all(|(e, k)| {
+                    e.0 == k.key && e.1 == k.value && e.2 == k.version && e.3 == k.status
+                });
+            if !same {
+                return Some(format!(
+                    "member {:?}: the delta announces ({}, {}] but carries {} key-values where the sender holds {} in that range",
+                    nd.chitchat_id.node_id, nd.from_version_excluded, nd.max_version, nd.key_values.len(), expect.len()
+                ));
+            }
+            if nd.max_version > ns.max_version() {
+                return Some(format!("member {:?}: delta max version {} above the sender's {}", nd.chitchat_id.node_id, nd.max_version, ns.max_version()));
+            }
+        }
+        None
     }
 
     pub fn snapshot_copy(&self, slot: u64, id: &ChitchatId) -> Option<PCopy> {
@@ -914,11 +1279,30 @@ impl Exec {
             let (l, o, pd) = self.do_delta(s, &digest, mtu, &[])?;
             out.push((l, o));
             if let Some(pd) = pd {
+                let scopy = self.snapshot_copy(s, &x)?;
                 for nd in &pd.node_deltas {
-                    out.push(self.run_raw(&plist("applynd", [r.to_string(), p_nd(nd)])));
+                    // C14: start version 0 exactly when the receiver is below the sender's watermark
+                    let must_reset = rcopy.max_version < scopy.last_gc && rcopy.last_gc < scopy.last_gc;
+                    let expected_from = if must_reset { 0 } else { rcopy.max_version };
+                    if nd.from_version_excluded != expected_from {
+                        self.monitor_hit("C14", "reset-decision", &format!(
+                            "sender (gc {}, max {}) vs receiver (gc {}, max {}): delta starts from {}",
+                            scopy.last_gc, scopy.max_version, rcopy.last_gc, rcopy.max_version, nd.from_version_excluded));
+                    }
+                    let (l, o) = self.run_raw(&plist("applynd", [r.to_string(), p_nd(nd)]));
+                    let carries = !nd.key_values.is_empty() || nd.max_version > 0;
+                    if carries && o.starts_with("(ok reject") {
+                        self.monitor_hit("C14", "refused", &format!(
+                            "the delta computed from the receiver's own digest (receiver gc {}, max {}; sender gc {}, max {}; from {}, {} key-values, max {}) was refused",
+                            rcopy.last_gc, rcopy.max_version, scopy.last_gc, scopy.max_version, nd.from_version_excluded, nd.key_values.len(), nd.max_version));
+                    }
+                    out.push((l, o));
                     if self.poisoned {
                         return Some(out);
                     }
+                }
+                if pd.node_deltas.is_empty() && mtu >= 60_000 && scopy.max_version > rcopy.max_version {
+                    self.monitor_hit("C14", "empty", "the sender is ahead but offered nothing although space permits");
                 }
             } else {
                 return Some(out);
@@ -934,6 +1318,8 @@ impl Exec {
         let _g = self.rt.enter();
         let ctx = self.nodes.get_mut(&slot)?;
         let cb_before = ctx.callbacks.load(Ordering::SeqCst);
+        let gc_before: BTreeMap<ChitchatId, u64> =
+            ctx.cc.node_states().iter().map(|(id, ns)| (id.clone(), ns.last_gc_version())).collect();
         verif::start_flush_log();
         verif::start_shuffle_log();
         let r = catch_unwind(AssertUnwindSafe(|| verif::cc_process_message(&mut ctx.cc, msg)));
@@ -945,6 +1331,22 @@ impl Exec {
             Ok(reply) => {
                 let ctx = self.nodes.get(&slot)?;
                 let cbs = ctx.callbacks.load(Ordering::SeqCst) - cb_before;
+                // C20: a copy was reset iff its GC watermark rose (an incremental apply never moves it)
+                let resets = ctx
+                    .cc
+                    .node_states()
+                    .iter()
+                    .filter(|(id, ns)| ns.last_gc_version() > gc_before.get(*id).copied().unwrap_or(0))
+                    .count();
+                let expected_cbs = match pm {
+                    PMsg::SynAck { .. } | PMsg::Ack { .. } => usize::from(resets > 0),
+                    _ => 0,
+                };
+                let c20 = if cbs != expected_cbs {
+                    Some(format!("{resets} member copies were reset by this message but the catch-up callback ran {cbs} time(s)"))
+                } else {
+                    None
+                };
                 let evs = Self::take_events(ctx);
                 let reply_p = reply.as_ref().map(to_pmsg);
                 // size of the reply on the wire (this is what the UDP transport does with it)
@@ -979,6 +1381,11 @@ impl Exec {
                         Self::p_events(&evs),
                     ],
                 );
+                if let Some(d) = c20 {
+                    self.monitor_hit("C20", "callback-count", &d);
+                }
+                // C05: no message ever changes the node's own namespace
+                self.check_own_copy(slot, &["C05"], "processing a message");
                 if let Some(n) = oversize {
                     self.monitor_hit("C07", "oversize-reply", &format!("a reply of {n} bytes does not fit a UDP datagram (65507)"));
                 }
@@ -990,7 +1397,14 @@ impl Exec {
             }
             Err(_) => {
                 self.poisoned = true;
-                Some((l, p_panic(&take_panic()), None))
+                let desc = take_panic();
+                let kind = classify_panic(&desc);
+                if kind != "budgetUnderflow" && kind != "mtuTooSmall" {
+                    let d = format!("process_message aborted ({kind}): {}", &desc[..desc.len().min(160)]);
+                    self.monitor_hit("C09", "process-abort", &d);
+                    self.monitor_hit("C04", "process-abort", &d);
+                }
+                Some((l, p_panic(&desc), None))
             }
         }
     }
@@ -1053,7 +1467,12 @@ impl Exec {
         let flushes = verif::take_flush_log();
         let l = plist("enc", [p_msg(pm), p_oracle(&flushes)]);
         match r {
-            Ok((len, bytes)) => (l, plist("ok", [len.to_string(), hex(&bytes)]), Some(bytes)),
+            Ok((len, bytes)) => {
+                if len != bytes.len() {
+                    self.monitor_hit("C08", "announced-length", &format!("message announces {len} bytes but serializes to {}", bytes.len()));
+                }
+                (l, plist("ok", [len.to_string(), hex(&bytes)]), Some(bytes))
+            }
             Err(_) => (l, p_panic(&take_panic()), None),
         }
     }
